@@ -54,3 +54,10 @@ package engine
 //@ func iface WorkflowEngine.Parse(workflowContext, workflowFileName)
 //@   ensures (result1 == nil) != (result == nil)
 //@ func iface Workflow.Namespaces()
+//
+//@ func (*workflowFactory).createYAMLParser
+//@   requires f != nil
+//@   ensures [converter-or-error] (result1 == nil) != (result == nil)
+//@ func (*workflowFactory).createWorkflow
+//@   requires f != nil
+//@   ensures [executor-or-error] (result1 == nil) != (result == nil)
